@@ -39,6 +39,10 @@ class Check(PropertyCheck):
             yield self.scenario(rng, tier, i)
 
     def rule_token(self, rng):
+        if getattr(self, "_exact_only", False):
+            if rng.random() < 0.4:
+                return rng.choice(["spt", "fcfs", "mor", "sb:spt", "sb:fcfs"])
+            return "tb:" + ",".join(rng.choice(["spt", "fcfs", "mor"]) for _ in range(rng.randint(1, 3)))
         r = rng.random()
         if r < 0.7:
             return rng.choice(RULES)
@@ -68,13 +72,22 @@ class Check(PropertyCheck):
             jobs = [[([rng.randrange(M)], rng.randint(1, 2)) for _ in range(rng.randint(1, 2))] for _ in range(J)]
             family = "many_jobs_ties"
             f = gen.gen_filter(rng)
+        exact_only = False
+        if rng.random() < 0.08:
+            # scores of magnitude 10^9..10^15 that differ by a few units: comparisons are exact integer comparisons
+            # (rules that read the float32 feature observers are left out: float32 is exact below 2^24 only)
+            big = 10 ** rng.choice([9, 12, 15])
+            jobs = [[(ms, big + d) for ms, d in job] for job in jobs]
+            family += "+near_huge"
+            exact_only = True
         lines = ["new", instance_line(jobs), gen.filter_line(f)]
         kind = "solve" if i % 2 == 0 else "states"
+        self._exact_only = exact_only
         n_acc = 0
         if kind == "solve":
             # one in four: the observer-based rule (a module-level object with its own cached observers) solves the
             # same instance object several times in a row, each time on a new dispatcher
-            repeat_obs = rng.random() < 0.25
+            repeat_obs = rng.random() < 0.25 and not exact_only
             for _ in range(rng.randint(2, 3) if repeat_obs else rng.randint(1, 3)):
                 rule = rng.choice(["omwkr", "omwkr", "sb:mwkr"]) if repeat_obs else self.rule_token(rng)
                 ch = rng.choice(["first", "random"])
@@ -93,10 +106,10 @@ class Check(PropertyCheck):
                         if n_acc < start_obs:
                             continue
                     lines.append(f"rule {rule} {rng.randint(0, 20)}")
-                if n_acc >= start_obs and rng.random() < 0.5:
+                if n_acc >= start_obs and rng.random() < 0.5 and not exact_only:
                     lines.append("rule mwkr")
                     lines.append("rule omwkr")
-                if rng.random() < 0.4:
+                if rng.random() < 0.4 and not exact_only:
                     fn = rng.choice(SCORES)
                     if fn != "mwkr" or n_acc >= start_obs:
                         lines.append("scores " + fn)
